@@ -24,7 +24,7 @@ use dsharness::server::{build_chunked_request, build_request, RespReader};
 use dsharness::util::*;
 use lc::*;
 use std::io::{Read, Write};
-use std::net::{SocketAddr, TcpListener, TcpStream};
+use std::net::{SocketAddr, TcpListener};
 use std::sync::atomic::{AtomicUsize, Ordering};
 use std::sync::{Arc, Mutex};
 use std::time::Duration;
@@ -80,6 +80,10 @@ enum End {
     /// send, read everything until the server closes (the last request carries
     /// `connection: close`, or the server closes after its error response)
     Wait,
+    /// send, read; if the server is still silent after 150 ms send FIN and go on
+    /// reading.  Either path is a valid experiment; the pause only makes it
+    /// likely that the server closes first (no client socket left in TIME_WAIT).
+    WaitThenFin,
     /// send, then give the connection up without reading
     Abrupt(How),
 }
@@ -186,9 +190,14 @@ fn run_conn(rt: &tokio::runtime::Runtime, addr: SocketAddr, case: &Case) -> Opti
             drop(k);
             Some(Vec::new())
         }
-        End::ReadToEof | End::Wait => {
+        End::ReadToEof | End::Wait | End::WaitThenFin => {
+            let mut fin_sent = false;
             if case.end == End::ReadToEof {
                 let _ = s.shutdown(std::net::Shutdown::Write);
+                fin_sent = true;
+            }
+            if case.end == End::WaitThenFin {
+                let _ = s.set_read_timeout(Some(Duration::from_millis(150)));
             }
             let mut recv = Vec::new();
             let mut buf = [0u8; 16384];
@@ -197,6 +206,15 @@ fn run_conn(rt: &tokio::runtime::Runtime, addr: SocketAddr, case: &Case) -> Opti
                     Ok(0) => break,
                     Ok(n) => recv.extend_from_slice(&buf[..n]),
                     Err(e) if e.kind() == std::io::ErrorKind::Interrupted => continue,
+                    Err(e)
+                        if case.end == End::WaitThenFin
+                            && !fin_sent
+                            && matches!(e.kind(), std::io::ErrorKind::WouldBlock | std::io::ErrorKind::TimedOut) =>
+                    {
+                        let _ = s.shutdown(std::net::Shutdown::Write);
+                        fin_sent = true;
+                        let _ = s.set_read_timeout(Some(Duration::from_secs(8)));
+                    }
                     // reset (the server closed with our bytes unread) or timeout
                     Err(_) => break,
                 }
@@ -218,14 +236,14 @@ fn random_case(rng: &mut Rng) -> Case {
         0 => {
             let n = rng.range(1, 300) as usize;
             let b: Vec<u8> = (0..n).map(|_| rng.below(256) as u8).collect();
-            Case { kind: "random-bytes".into(), fault: Some("garbage"), sent: Sent::raw(&b), end: End::ReadToEof }
+            Case { kind: "random-bytes".into(), fault: Some("garbage"), sent: Sent::raw(&b), end: End::WaitThenFin }
         }
         1 => {
             // text-like: tokens, spaces, CRLFs, colons
             let n = rng.range(1, 200) as usize;
             let alphabet = b"GETPOST /HTP1.:\r\n\r\n abcxyz019%-_";
             let b: Vec<u8> = (0..n).map(|_| *rng.pick(alphabet)).collect();
-            Case { kind: "random-text".into(), fault: Some("garbage"), sent: Sent::raw(&b), end: End::ReadToEof }
+            Case { kind: "random-text".into(), fault: Some("garbage"), sent: Sent::raw(&b), end: End::WaitThenFin }
         }
         _ => {
             let mut b = rng.pick(&valid).clone();
@@ -233,7 +251,7 @@ fn random_case(rng: &mut Rng) -> Case {
                 let i = rng.below(b.len() as u64) as usize;
                 b[i] = rng.below(256) as u8;
             }
-            Case { kind: "random-mutation".into(), fault: Some("garbage"), sent: Sent::raw(&b), end: End::ReadToEof }
+            Case { kind: "random-mutation".into(), fault: Some("garbage"), sent: Sent::raw(&b), end: End::WaitThenFin }
         }
     }
 }
@@ -501,7 +519,7 @@ fn main() {
     let mut jobs: Vec<(String, HandlerTaskMode, Vec<Item>, usize)> = Vec::new();
     // 1. the whole corpus plus random byte strings against ONE long-lived server per mode,
     //    valid requests and panics sprinkled in
-    let n_rand = if thorough { 20000 } else { 2500 };
+    let n_rand = if thorough { 12000 } else { 2500 };
     for &m in &modes {
         let mut items: Vec<Item> = Vec::new();
         for c in &cs {
@@ -528,7 +546,7 @@ fn main() {
         jobs.push((format!("L{}", mode_name(m)), m, mixed, 6));
     }
     // 2. sequences of 1..50 faulty connections interleaved with valid ones
-    let n_seq = if thorough { 1000 } else { 120 };
+    let n_seq = if thorough { 600 } else { 120 };
     let small: Vec<Case> = cs.iter().filter(|c| c.sent.bytes().len() < 4000).cloned().collect();
     for i in 0..n_seq {
         let m = modes[i % 2];
